@@ -87,7 +87,7 @@ def E0 : Env :=
     evidence := ⟨false, 0, false, false⟩, nodeAddr := [7],
     addrOf := fun _ => some [7], requestHashOf := fun _ => hexOf "cd" 32,
     tokenHash := fun _ => [], proofHash := fun _ => [], verify := fun _ _ _ => true,
-    session := .ok [some [7]], sessionEndCtxOk := true }
+    sessionCache := none, sessionGen := .ok [some [7]], sessionEndCtxOk := true }
 
 def r0 : Relay :=
   { data := "x", path := "", metaHeight := 10,
@@ -121,6 +121,20 @@ theorem served_requires_handle (E : Env) (r : Relay) (max : Int) (h : handleRela
         refine ⟨by omega, by simpa using hg, ht.1, ht.2⟩
   · simp only [ht] at h
     cases h
+
+/-- The servicer-in-session requirement does not depend on how the session was obtained: whether
+the session cache already holds the session (after an earlier relay, a dispatch or a challenge)
+or it is generated now, a served relay's servicer is one of *that* session's nodes; in particular
+a cached session that does not contain this node never lets a relay through. -/
+theorem cached_session_still_checked (E : Env) (r : Relay) (sbhArg : Int) (nodes : List (Option Bytes))
+    (hc : E.sessionCache = some nodes) (hnot : some E.nodeAddr ∉ nodes) :
+    ∀ max, validate E r sbhArg ≠ .ok max := by
+  intro max hv
+  obtain ⟨app, ns, a⟩ := served_requires E r sbhArg max hv
+  have hs := a.session
+  simp only [Env.session, hc] at hs
+  cases hs
+  exact hnot a.servicerInSession
 
 /-- **alter_field_rejected**: a relay in which any single authorization ingredient is wrong is not
 served, whatever the other fields are. -/
@@ -253,10 +267,11 @@ theorem rollover_error_reported (E : Env) (r : Relay) (sbhArg : Int) (app : App)
     (hmax : maxPossibleRelays app (E.nodeCount sbhArg) = some max) (hpos : 0 < max)
     (hev : evidenceChecks E max = none)
     (hloc : validateLocal E r.proof app.chains sbhArg = none)
+    (hcache : E.sessionCache = none)
     (hover : E.height > sbhArg + E.bps - 1) (hend : E.sessionEndCtxOk = false) :
     validate E r sbhArg = .fail (.err "sdk" 1) := by
   unfold validate validateApp
   have : ¬ max ≤ 0 := by omega
-  simp [hpre, happ, hmc, hmax, this, hev, hloc, sessionStage, hover, hend]
+  simp [hpre, happ, hmc, hmax, this, hev, hloc, sessionStage, hover, hend, hcache]
 
 end C35
